@@ -167,7 +167,8 @@ def main(tier: str) -> int:
                 chk.fail("the error of the training-set predictions differs from the reported best training fitness", {**d, "training_error": err, "reported_best": -best}, {**feats, "clause": "fitness"})
         # ---- n_iter and pop_size honoured
         n_iter, pop = est.n_iter, est.pop_size
-        if len(st["fitness"]) > n_iter or any(len(f) != pop for f in st["fitness"]):
+        early_ok = name.startswith("GPNN")      # (the GPNN estimators spend part of the budget on the weights; only the bound applies)
+        if len(st["fitness"]) > n_iter or (not early_ok and len(st["fitness"]) != n_iter) or any(len(f) != pop for f in st["fitness"]):
             chk.fail("fit does not honour n_iter / pop_size", {**d, "generations": len(st["fitness"]), "n_iter": n_iter, "sizes": sorted({len(f) for f in st["fitness"]})}, {**feats, "clause": "budget"})
         # ---- predict is pure: repeated, interleaved, model unchanged
         snap = (str(est.get_tree()) if hasattr(est, "tree_") else None,
@@ -239,6 +240,40 @@ def main(tier: str) -> int:
                          {"estimator": "GPClassifier", "stored_tree": tname, "labels": [str(l) for l in labels], "row": Xg[bad[0]].tolist(),
                           "proba": proba[bad[0]].tolist(), "predict": str(pred[bad[0]]), "expected": str(exp[bad[0]]), "tie_rows": ties},
                          {"estimator": "GPClassifier", "clause": "labels"})
+    # ---- fit honours n_iter also when an exact expression is found early (the estimators set no target value)
+    Xe = np.array([[float(i), float(j)] for i in range(-2, 3) for j in range(-2, 3)])
+    for tgt_name, ye in (("x0", Xe[:, 0].copy()), ("x0 + x1", Xe[:, 0] + Xe[:, 1]), ("x0 * x1", Xe[:, 0] * Xe[:, 1])):
+        for opt_ in (O.SelfCGP, O.GeneticProgramming):
+            ee = GeneticProgrammingRegressor(n_iter=6, pop_size=30, functional_set_names=("add", "mul", "sub"), optimizer=opt_, optimizer_args={"keep_history": True}, random_state=seed + 4)
+            ee.fit(Xe, ye)
+            ste = ee.get_stats()
+            chk.count("exact_target")
+            chk.case(("exact_target", tgt_name, opt_.__name__))
+            if len(ste["fitness"]) != 6:
+                chk.fail("fit does not honour n_iter / pop_size", {"estimator": "GPRegressor", "optimizer": opt_.__name__, "target": tgt_name, "n_iter": 6,
+                                                                    "generations": len(ste["fitness"]), "best_error": float(-max(ste["max_fitness"]))}, {"estimator": "GPRegressor", "clause": "budget"})
+    # ---- the same array OBJECT handed to predict again after its contents were replaced in place (a reused batch buffer)
+    for name, make, kind, nlab in configs[::5]:
+        if kind == "reg":
+            Xa, ya = E.data_regression(n=14, d=3, seed=seed + 1)
+        else:
+            Xa, ya = E.data_classification(n=15, d=3, labels=[ls for ls in label_sets if len(ls) == (2 if nlab == 2 else 3)][0], seed=seed + 1)
+        esb = make()
+        try:
+            esb.fit(Xa, ya)
+        except Exception:
+            continue
+        buf = Xa[:6].copy()
+        first = esb.predict(buf)
+        buf[...] = Xa[6:12]
+        second = esb.predict(buf)
+        fresh = esb.predict(Xa[6:12].copy())
+        chk.count("reused_buffer")
+        chk.case(("reused_buffer", name))
+        if [str(v) for v in second] != [str(v) for v in fresh]:
+            chk.fail("predict changes the model or depends on earlier predict calls",
+                     {"estimator": name, "scenario": "the same array object, refilled in place with the next batch", "got": [str(v) for v in second][:4], "expected": [str(v) for v in fresh][:4]},
+                     {"estimator": name, "clause": "pure_buffer"})
     # ---- GP regressor with a stored tree that contains no variable (constant targets, tiny budgets): still one value per row
     from thefittest.base import TerminalNode
     Xk, yk = E.data_regression(n=9, d=2, seed=seed)
